@@ -147,6 +147,18 @@ CHECKS = {
              'for the regexEscape clause; containers are never inserted into themselves (cyclic values are outside the model); '
              'arrayDelete\'s return value and systemIs on equal immutable values are left unspecified.',
         ref='DESIGN.md 5 C15'),
+    'C12': dict(
+        technique='TLA+ value domain with a single number type + TLC-judged twin law (Trace_Twin: equal outcome, result and '
+                  'post-call arguments under the abstraction) + TLC trace validation of script-literal calls (Trace_Core)',
+        text='The abstraction maps host int and float spellings of an integral number to one abstract number, so the '
+             'specification cannot express a difference. Every library function except clock/random/fetch/log is called with '
+             'argument lists generated from its own argument model (index, count, size, radix and digit parameters at their '
+             'boundaries; values of all types, also inside containers), once with ints and once with floats, through '
+             'execute_script; TLC judges each twin. Modelled functions are additionally called from rendered source text '
+             '(number literals are parser floats) and validated against BareCore.',
+        note='For functions without a functional model TLC contributes only the equality under the abstraction (a differential '
+             'comparison whose comparator is the specification\'s abstraction), as stated in DESIGN.md.',
+        ref='DESIGN.md 5 C12'),
 }
 
 NOT_YET = 'check not built yet in this round (work in progress; see DESIGN.md section 9 build order)'
